@@ -175,6 +175,38 @@ W('CollectionParameters', loops=map_writer_loops('CollectionParameters'), props=
 W('FilePreamble', loops=map_writer_loops('FilePreamble'), props=('C10', 'C02', 'C09'),
   setup_extra='  __CPROVER_assume(obj.m_block_parameters.n < (1UL << 60));\n')
 
+# ---------------------------------------------------------------- array / leaf writers
+AWREQ = WREQ.replace('kt_over)', 'kt_over, $this->list.cur)')
+TS_W = WREQ + '''
+__CPROVER_ensures(KT_ARRAY_DONE && kt_topn == 2)
+__CPROVER_ensures(g_Ei == 0 ==> (g_eseen && g_ekind == K_UINT && g_eval == $this->m_secs))
+__CPROVER_ensures(g_Ei == 1 ==> (g_eseen && g_ekind == K_UINT && g_eval == $this->m_ticks))
+'''
+UNITS.append(Unit('w.Timestamp', ('Timestamp::write', None), contract=TS_W, prelude=P, extern_records=EXT, stubs=ENC_STUBS,
+                  setup='  struct Timestamp obj; struct CdnsEncoder enc;\n  mon_init();\n', args=['&obj', '&enc'],
+                  props=['C10', 'C02', 'C01', 'C17'], note='[secs, ticks] as a 2-element array'))
+SI_W = WREQ + '''
+__CPROVER_ensures(KT_LEAF_DONE && g_eseen && g_ekind == K_BSTR && g_eval == $this->data.id)
+'''
+UNITS.append(Unit('w.StringItem', ('StringItem::write', None), contract=SI_W, prelude=P, extern_records=EXT, stubs=ENC_STUBS,
+                  setup='  struct StringItem obj; struct CdnsEncoder enc;\n  mon_init();\n', args=['&obj', '&enc'],
+                  props=['C10', 'C02', 'C01'], note='one byte string with the stored bytes'))
+ILI_W = AWREQ + '''
+__CPROVER_requires($this->list.n < (1UL << 60))
+__CPROVER_ensures(KT_ARRAY_DONE && kt_topn == $this->list.n)
+__CPROVER_ensures((g_Ei < $this->list.n && g_Ei == $this->list.wi) ==> (g_eseen && g_ekind == K_UINT && g_eval == (unsigned long)$this->list.wv))
+'''
+ILI_LOOP = '''
+  __CPROVER_assigns($L2, $L1, g_bytes, kt_left, g_ekind, g_eval, g_eseen, g_exc, $this->list.cur)
+  __CPROVER_loop_invariant($L2 <= $this->list.n && g_exc == 0 && $L1 == g_bytes)
+  __CPROVER_loop_invariant(kt_depth == 1 && !kt_topmap && kt_left == $this->list.n - $L2 && !kt_over && !g_keybad && kt_n == $this->list.n)
+  __CPROVER_loop_invariant((g_Ei < $L2 && g_Ei == $this->list.wi) ==> (g_eseen && g_ekind == K_UINT && g_eval == (unsigned long)$this->list.wv))
+  __CPROVER_decreases($this->list.n - $L2)
+'''
+UNITS.append(Unit('w.IndexListItem', ('IndexListItem::write', None), contract=ILI_W, loops={1: ILI_LOOP}, prelude=P, extern_records=EXT,
+                  stubs=ENC_STUBS, setup='  struct IndexListItem obj; struct CdnsEncoder enc;\n  mon_init();\n  __CPROVER_assume(obj.list.n < (1UL << 60));\n',
+                  args=['&obj', '&enc'], props=['C10', 'C02', 'C01'], note='array of the stored indices in order, any length incl. 0'))
+
 TRUSTED_BASE = [
     'A13(ii) byte-layer contracts of CdnsEncoder (discharged in enc.* units) reduced to tokens: each encoder operation returns '
     'exactly the RFC 8949 length of what it appends and emits one token',
